@@ -1,6 +1,6 @@
-(* Property C06 (the output file's packets) -- statements only: TCP conversation and segments, UDP datagrams, IPv4 and IPv6 headers. *)
+(* Property C06 (the output file's packets) -- statements only: TCP conversation and segments, UDP datagrams, IPv4 and IPv6 headers, and the container. *)
 From Coq Require Import ZArith List Bool.
-Require Import PyLib Checksum Rfc1071 C11P Packet Reassembly TlsSession OutputBuilder Frames Reader BuilderP FramesP FramesUdpP.
+Require Import PyLib Checksum Rfc1071 C11P Packet Reassembly TlsSession OutputBuilder Frames Reader BuilderP FramesP FramesUdpP PcapngWriter PcapngSpec PcapngReader C12P WriterP.
 Import ListNotations.
 Open Scope Z_scope.
 
@@ -49,3 +49,16 @@ Theorem C06_ipv6_header : forall src dst nxt payload, len payload < 65536 ->
   ipv6 src dst nxt payload = Ok ([0x60; 0; 0; 0] ++ to_be_total (len payload) 2 ++ [nxt; 64] ++ src ++ dst ++ payload).
 Proof. exact ipv6_valid. Qed.
 Print Assumptions C06_ipv6_header.
+
+(* the container: the file written is a pcapng section as the standard's serialiser (Spec/PcapngSpec.v) produces it -- little-endian,
+   one Ethernet interface with snap length 20000 and no options, one Enhanced Packet Block per packet (time stamps below 2^64 us,
+   packets below 4 GiB) ... *)
+Theorem C06_output_is_pcapng : forall pkts, Forall pkt_fits pkts -> write_file pkts = ser true (as_capture pkts).
+Proof. exact write_is_pcapng. Qed.
+Print Assumptions C06_output_is_pcapng.
+
+(* ... and therefore the reader of C12 (TLExport's own) reads it back to exactly the packets written with their microsecond time stamps *)
+Theorem C06_output_reads_back : forall pkts, Forall pkt_fits pkts ->
+  parse_file (write_file pkts) = Ok ({| ts_base := 10; ts_exp := 6; ts_offset := 0 |}, map (fun p => RPkt (fst p) (snd p)) pkts).
+Proof. exact written_file_reads_back. Qed.
+Print Assumptions C06_output_reads_back.
